@@ -42,6 +42,39 @@ CHECKS = {
         "__hoist is interpreted symbolically and z3 shows no edge is reversed, no node lost, loops nest and no descendant rises above its loop.",
    note="Trusted base: lib/tv/symhoist.py, networkx (descendants evaluated concretely), z3. The graph's edge set is taken as given. "
         "Graphs above the node bound are only checked on the concrete order the real pipeline produces."),
+ "C05": dict(engine="E1", cat="translation_validation", ref="§3 E1/E5, §6 C05",
+   technique="symbolic execution of emitted cascades + z3 equivalence with the chained dense Einsums; CrossHair on Tensor.reset/next_tmp",
+   text="Every output of every Einsum of each F-cascade member equals the chained dense evaluation for all inputs and is bound under its "
+        "declared name and layout; Tensor.reset() from an arbitrary state yields a fresh tensor (CrossHair); each section is compared "
+        "concretely with the stand-alone compilation up to temporaries.", note=E1_NOTE),
+ "C07": dict(engine="E1", cat="translation_validation", ref="§3 E1, §6 C07",
+   technique="symbolic execution with name / result-binding / input-snapshot monitors; z3 decides input equality where not structurally identical",
+   text="After symbolic execution every <Tensor>_<Ranks> variable must hold a tensor whose rank ids spell <Ranks>, every result is bound under "
+        "its declared name with original coordinates, and every input (object and variable) holds the same presence guards and values for all inputs.",
+   note=E1_NOTE),
+ "C13": dict(engine="E5", cat="other", ref="§3 E5, §6 C13, §8",
+   technique="CrossHair (z3-backed symbolic execution) of the real Fusion.add_einsum: inductive step from an arbitrary invariant-satisfying state",
+   text="One add_einsum from any open-block state satisfying the representation invariant either extends the block only when config, temporal "
+        "prefix and component-disjointness allow, or opens a new block, and re-establishes the invariant - covering histories of any length; "
+        "counterexamples are replayed through real YAML -> Program/Hardware/Fusion.",
+   note="Trusted base: CrossHair 0.0.110 + z3; stub Program/Hardware exposing only the methods add_einsum calls; 2 components, 2 configs, "
+        "2 (quick) / 3 (thorough) loop ranks. 'Confirmed over all paths' is the only passing verdict."),
+ "C15": dict(engine="E5", cat="other", ref="§3 E5, §6 C15, §8",
+   technique="CrossHair over real Bindings + component constructors + expand_eager (snapshot equality, repeatability); concrete double compilation as supplement",
+   text="For every binding dictionary in the bounded domain, building (and eagerly expanding) components leaves the parsed Bindings object "
+        "deep-equal to its snapshot and is repeatable; the repository's accelerator specs are additionally compiled twice from the same objects.",
+   note="Trusted base: CrossHair + z3; the whole-pipeline part is a concrete enumeration (stated in evidence), not solver-quantified."),
+ "C18": dict(engine="E5", cat="other", ref="§3 E5, §6 C18",
+   technique="CrossHair harness per legality rule on the real guard functions, violation injected at a symbolic position",
+   text="ValueError iff the rule is violated, for Tensor.__init__, ir.Equation, Partitioning.__nway_after_dyn/__check_flatten/constructor and "
+        "Bindings.__init__, over all instances in the bounded structure domain; the two dataflow rules are enumerated whole-pipeline cases.",
+   note="Trusted base: CrossHair + z3; harness-built lark trees in the grammar's shape. The index-math flatten rule (sympy) and the two "
+        "dataflow rules are only enumerated."),
+ "C19": dict(engine="E5", cat="other", ref="§3 E5, §6 C19, §8",
+   technique="CrossHair on ir.Equation rank collection with symbolic rank names, LoopOrder default on real Partitionings, Mapping sections; text identity as concrete supplement",
+   text="get_einsum_ranks() equals 'output ranks as written, then first appearance' for all rank-name assignments over 8 expression shapes; the "
+        "default loop order expands every partitioned rank in place; absent/None/empty mapping sections parse to the empty default.",
+   note="Trusted base: CrossHair + z3; lark parsing itself is out of reach (C17). The LoopOrder harness is an exhaustive enumeration under the tracer."),
 }
 NA = [
  {"property_id": "C17", "reason": "parsing is done by lark's Earley engine over regex terminals: CrossHair realises symbolic strings at re/hash (probe: 90 s, 'Not confirmed', TypeError inside lark), and an SMT regex model of the grammars would check my reading of lark, not the code; no solver-based encoding of the real parser is within reach (DESIGN §7)"},
